@@ -67,6 +67,96 @@ Qed.
 
 End Stage.
 
+(* ---- order: sections of the other classes keep their order, and for an
+   advancing driver the found list is in section order *)
+
+Section StageOrdered.
+Variable F : Type.
+Variable detect : str -> dres F.
+Variable Inv : str -> Prop.
+Variable c : nat.
+Hypothesis det_class : forall s p f, Inv s -> detect s = DYes p f -> unlab_all Inv p /\ only_class c p.
+
+Lemma stage_other_eq reex k : k <> c -> forall todo out fs, drive_all detect reex todo = Some (out, fs) ->
+  unlab_all Inv todo -> filter (isC k) out = filter (isC k) todo.
+Proof.
+  intros Hk todo out fs E. unfold drive_all in E. revert E.
+  apply (drive_rel_simple F detect reex
+           (fun a b fs => unlab_all Inv a -> filter (isC k) b = filter (isC k) a /\ unlab_all Inv b)).
+  - intros _. split; [reflexivity|constructor].
+  - intros x a b fs0 IH Hi. inversion Hi; subst. destruct (IH ltac:(assumption)) as (E & Hb).
+    split; [simpl; now rewrite E|now constructor].
+  - intros s p f rest out0 fs0 D IH Hi. inversion Hi as [|? ? Hs Hr]; subst.
+    destruct (det_class s p f (Hs eq_refl) D) as (Hip & Hcl).
+    destruct (IH ltac:(apply Forall_app; now split)) as (E & Hb). split; [|assumption].
+    rewrite E, filter_app, (only_class_filter c k p Hcl Hk). reflexivity.
+Qed.
+
+Variables (T : Type) (G : F -> list T) (g : section -> T).
+Hypothesis det_shape : forall s p f, Inv s -> detect s = DYes p f ->
+  exists l1 mids l3, p = osec l1 ++ mids ++ osec l3 /\ mids <> [] /\
+    Forall (fun x => isC c x = true) mids /\ G f = map g mids.
+
+Notation vals l := (map g (filter (isC c) l)).
+
+Lemma vals_mids mids : Forall (fun x => isC c x = true) mids -> vals mids = map g mids.
+Proof. induction 1 as [|x m Hx _ IH]; [reflexivity|]. simpl. rewrite Hx. simpl. now rewrite IH. Qed.
+
+Lemma isC_labelled x : isC c x = true -> snd x <> None.
+Proof. unfold isC. destruct (snd x); [discriminate|discriminate]. Qed.
+
+Lemma stage_found_ordered : forall todo out fs, drive_all detect false todo = Some (out, fs) ->
+  unlab_all Inv todo -> filter (isC c) todo = [] -> vals out = flat_map G fs.
+Proof.
+  intros todo out fs E Hi Hno. unfold drive_all in E.
+  assert (H : forall a1 a2, todo = a1 ++ a2 -> Forall (fun x => snd x <> None) a1 -> filter (isC c) a2 = [] ->
+              unlab_all Inv todo -> vals out = vals a1 ++ flat_map G fs).
+  { revert E.
+    apply (drive_rel F detect false
+             (fun a b fs => forall a1 a2, a = a1 ++ a2 -> Forall (fun x => snd x <> None) a1 -> filter (isC c) a2 = [] ->
+                            unlab_all Inv a -> vals b = vals a1 ++ flat_map G fs)).
+    - intros a1 a2 E _ _ _. symmetry in E. apply app_eq_nil in E. destruct E as (-> & ->). reflexivity.
+    - intros s l a b fs0 IH a1 a2 E Hl Hn Hia. inversion Hia; subst.
+      destruct a1 as [|y a1].
+      + simpl in E. subst a2. simpl in Hn. destruct (isC c (s, Some l)) eqn:Ec; [discriminate|].
+        simpl. rewrite Ec. apply (IH [] a eq_refl); [constructor|assumption|assumption].
+      + simpl in E. injection E as <- ->. inversion Hl; subst.
+        simpl. destruct (isC c (s, Some l)); simpl; rewrite (IH a1 a2 eq_refl) by assumption; reflexivity.
+    - intros s a b fs0 D IH a1 a2 E Hl Hn Hia. inversion Hia; subst.
+      destruct a1 as [|y a1].
+      + simpl in E. subst a2. simpl in Hn. simpl. apply (IH [] a eq_refl); [constructor|assumption|assumption].
+      + simpl in E. injection E as <- ->. inversion Hl as [|? ? Hy _]; subst. simpl in Hy. congruence.
+    - discriminate.
+    - intros _ s p f rest x rest' out0 fs0 D E IH a1 a2 Ea Hl Hn Hia. inversion Hia as [|? ? Hs Hr]; subst.
+      destruct a1 as [|y a1]; [|simpl in Ea; injection Ea as <- _; inversion Hl as [|? ? Hy _]; subst; simpl in Hy; congruence].
+      simpl in Ea. subst a2. simpl in Hn.
+      destruct (det_class s p f (Hs eq_refl) D) as (Hip & _).
+      destruct (det_shape s p f (Hs eq_refl) D) as (l1 & mids & l3 & -> & Hne & Hm & HG).
+      assert (Hall : unlab_all Inv rest').
+      { assert (Hpr : unlab_all Inv ((osec l1 ++ mids ++ osec l3) ++ rest)) by (apply Forall_app; now split).
+        rewrite E in Hpr. now inversion Hpr. }
+      assert (Hn2 : filter (isC c) (osec l3 ++ rest) = []) by (rewrite filter_app, filter_isC_osec; exact Hn).
+      assert (Hlab : forall m, Forall (fun x => isC c x = true) m -> Forall (fun x => snd x <> None) m)
+        by (intros m Hm'; eapply Forall_impl; [|exact Hm']; intros z; apply isC_labelled).
+      simpl. rewrite HG. destruct l1 as [|c0 l1].
+      + (* the first mid is passed over *)
+        destruct mids as [|m1 mids']; [congruence|]. simpl in E. injection E as <- <-.
+        inversion Hm as [|? ? Hm1 Hm']; subst.
+        simpl. rewrite Hm1. simpl. rewrite <- app_assoc in Hall.
+        rewrite (IH mids' (osec l3 ++ rest)); [|now rewrite <- app_assoc|now apply Hlab|assumption|now rewrite <- app_assoc].
+        rewrite (vals_mids mids' Hm'). reflexivity.
+      + rewrite osec_cons in E. simpl in E. injection E as <- <-.
+        simpl. rewrite <- app_assoc in Hall.
+        rewrite (IH mids (osec l3 ++ rest)); [|now rewrite <- app_assoc|now apply Hlab|assumption|now rewrite <- app_assoc].
+        rewrite (vals_mids mids Hm). reflexivity.
+    - intros _ s f D a1 a2 Ea Hl Hn Hia. inversion Hia as [|? ? Hs Hr]; subst.
+      destruct (det_shape s [] f (Hs eq_refl) D) as (l1 & mids & l3 & E & Hne & _).
+      destruct l1; destruct mids; simpl in E; try discriminate; congruence. }
+  rewrite (H [] todo eq_refl); [reflexivity|constructor|assumption|assumption].
+Qed.
+
+End StageOrdered.
+
 (* ---- the detectors, stage by stage *)
 
 Section Stages.
@@ -156,6 +246,18 @@ Proof.
   destruct D as (l1 & l2 & l3 & pieces & b & _ & _ & _ & _ & _ & _ & _ & _ & -> & ->).
   split; [apply only_class_shape; apply alpha_mids_class|].
   rewrite filter_shape by apply alpha_mids_class. rewrite !map_map. simpl. split; apply Permutation_refl.
+Qed.
+
+Lemma alpha_shape m s p f : good s -> detect_alpha isalpha isupper lower_c true (mwp m) s = DYes p f ->
+  exists l1 mids l3, p = osec l1 ++ mids ++ osec l3 /\ mids <> [] /\ Forall (fun x => isC 5 x = true) mids /\
+    fst f = map (fun x => L (fst x)) mids /\ snd f = map (fun x => case_mask isupper (fst x)) mids.
+Proof.
+  intros Hg D.
+  apply detect_alpha_spec in D; [|intros x b ws; now apply mw_parse_concat|now apply (good_lowne isalpha isdigit)].
+  destruct D as (l1 & l2 & l3 & pieces & b & _ & _ & _ & _ & _ & _ & _ & Hpne & -> & ->).
+  exists l1, (map (fun pc : str => (pc, Some (LA (len pc)))) pieces), l3.
+  split; [reflexivity|]. split; [destruct pieces; [congruence|discriminate]|]. split; [apply alpha_mids_class|].
+  rewrite !map_map. split; reflexivity.
 Qed.
 
 Lemma digit_class s p f : True -> detect_digits isdigit s = DYes p f ->
